@@ -8,8 +8,8 @@ COMBOS = [("list", "func"), ("iter", "func"), ("list", "stream"), ("list", "hub"
           ("stream", "func"), ("hub", "func"), ("sublist", "func"), ("chain", "func"), ("map", "func"), ("iter", "stream"),
           ("only", "stream"), ("list", "scopy"), ("gen", "hub"), ("list", "hub2"), ("sublist", "stream"), ("list", "func")]
 ZKINDS = ["list", "iter", "gen", "only", "stream", "hub", "sublist", "chain"]
-FRESH = ["n", None, 2.5, True, 0, (9,), -0.0, Fraction(2, 3)]
-PADS = [None, "P", 0., 0, -1, (), False]
+FRESH = ["n", None, 2.5, True, 0, (9,), -0.0, Fraction(2, 3), U.Obj("float"), U.Obj("nan"), U.Obj("alist")]
+PADS = [None, "P", 0., 0, -1, (), False, U.Obj("abs"), U.Obj("list"), U.Obj("callobj"), U.Obj("nan"), U.Obj("lambda")]
 
 
 class Sim(object):
